@@ -78,3 +78,68 @@ Proof. vm_compute. repeat split. Qed.
 
 Print Assumptions C16_failure_never_revives_proof.
 Print Assumptions C16_failure_never_revives_swap_refuted_proof.
+
+(* ---------- successful traffic ---------- *)
+Lemma mark_avail_tlog_dead : forall cfg m n d l,
+  md_alive (m_d m n) (canon (index_of d)) = false ->
+  m_tlog (mark_avail cfg m n d l) = m_tlog m ++ [(n, d, true)].
+Proof.
+  intros cfg m n d l H. unfold mark_avail. cbv zeta. rewrite H.
+  match goal with |- m_tlog (inform cfg ?M n d true l) = _ =>
+    destruct (inform_health cfg M n d true l) as (_ & _ & _ & _ & ->) end.
+  destruct (c_addr cfg n =? 0); reflexivity.
+Qed.
+
+(* a dead data-UDP type comes back on successful traffic whatever the counters are (in particular with a
+   traffic streak of 0): alive, both counts cleared, the address's death count cleared, exactly one alive edge *)
+Lemma C16_data_udp_traffic_revives_dead_proof : forall cfg h n d l,
+  is_data d = true -> model_alive cfg h n d = false ->
+  let m := m_run cfg (h ++ [ETrafficOk n d l]) in
+  d_alive (m_d m n) d = true /\ md_fail (m_d m n) (index_of d) = 0 /\ md_traffic (m_d m n) (index_of d) = 0
+  /\ (c_addr cfg n <> 0 -> m_tracker m (c_addr cfg n) = 0) /\ m_tlog m = [(n, d, true)].
+Proof.
+  intros cfg h n d l Hd Ha m. subst m. rewrite m_run_snoc. cbn [m_step]. unfold traffic_ok. cbv zeta. rewrite Hd. cbn [andb].
+  set (m0 := clear_logs (m_run cfg h)).
+  set (x' := if md_traffic (m_d m0 n) (index_of d) =? 0 then m_d m0 n else _).
+  assert (Hal : md_alive x' (canon (index_of d)) = false).
+  { subst x'. destruct (md_traffic (m_d m0 n) (index_of d) =? 0); exact Ha. }
+  rewrite Hal. cbn [negb].
+  destruct (mark_avail_point cfg (set_dialer m0 n x') n d l) as (A & B & C & D).
+  split; [exact A|]. split; [exact B|]. split; [exact C|]. split; [exact D|].
+  rewrite mark_avail_tlog_dead; [reflexivity|]. cbn [set_dialer m_d]. rewrite upd_same. exact Hal.
+Qed.
+
+(* for the other types successful traffic revives nothing: no flag changes, no callback *)
+Lemma C16_traffic_success_other_types_proof : forall cfg h n d l,
+  is_data d = false ->
+  (forall n' d', model_alive cfg (h ++ [ETrafficOk n d l]) n' d' = model_alive cfg h n' d')
+  /\ m_tlog (m_run cfg (h ++ [ETrafficOk n d l])) = [].
+Proof.
+  intros cfg h n d l Hd. split.
+  - intros n' d'. unfold model_alive. rewrite m_run_snoc. cbn [m_step]. unfold traffic_ok. cbv zeta. rewrite Hd. cbn [andb].
+    set (m0 := clear_logs (m_run cfg h)). cbn [set_dialer m_d]. unfold upd. destruct (n' =? n) eqn:E; [|reflexivity].
+    apply N.eqb_eq in E; subst n'. destruct (md_traffic (m_d m0 n) (index_of d) =? 0); reflexivity.
+  - rewrite m_run_snoc. cbn [m_step]. unfold traffic_ok. cbv zeta. rewrite Hd. reflexivity.
+Qed.
+
+(* the variant with the early return "traffic streak = 0 -> nothing to do" placed before the revival check does not
+   revive a data-UDP type that died through the probe counter *)
+Definition traffic_ok_early_return (cfg : config) (m : mstate) (n : N) (d : dom) (l : latmap) : mstate :=
+  let idx := index_of d in
+  let x := m_d m n in
+  if md_traffic x idx =? 0 then m
+  else let x' := {| md_alive := md_alive x; md_fail := md_fail x; md_traffic := upd (md_traffic x) idx 0 |} in
+       let m1 := set_dialer m n x' in
+       if is_data d && negb (md_alive x' (canon idx)) then mark_avail cfg m1 n d l else m1.
+
+Lemma C16_data_udp_traffic_revives_early_return_refuted_proof :
+  let h := repeat (EFail 0 DataUdp4 KTrans false []) 3 in
+  model_alive wit_cfg1 h 0 DataUdp4 = false
+  /\ md_traffic (m_d (m_run wit_cfg1 h) 0) (index_of DataUdp4) = 0
+  /\ d_alive (m_d (traffic_ok_early_return wit_cfg1 (clear_logs (m_run wit_cfg1 h)) 0 DataUdp4 []) 0) DataUdp4 = false
+  /\ model_alive wit_cfg1 (h ++ [ETrafficOk 0 DataUdp4 []]) 0 DataUdp4 = true.
+Proof. vm_compute. repeat split. Qed.
+
+Print Assumptions C16_data_udp_traffic_revives_dead_proof.
+Print Assumptions C16_traffic_success_other_types_proof.
+Print Assumptions C16_data_udp_traffic_revives_early_return_refuted_proof.
